@@ -258,6 +258,15 @@ pub fn err_code(k: &ErrorKind) -> u32 {
     }
 }
 
+/// one shared `Arc<Edge>` per distinct edge description
+#[derive(Default)]
+pub struct EdgeArcs(std::collections::HashMap<(u32, u32, Option<i64>, Option<u32>), Arc<Edge<u32, u32>>>);
+impl EdgeArcs {
+    pub fn get(&mut self, e: &E) -> Arc<Edge<u32, u32>> {
+        Arc::clone(self.0.entry((e.u, e.v, e.w, e.attr)).or_insert_with(|| e.to_edge()))
+    }
+}
+
 /// Apply a history to the real graph. Returns the graph and the result code of every call.
 pub fn apply(case: &Case) -> (G, Vec<u32>) {
     let mut g: G = Graph::new(case.specs.to_graph_specs());
@@ -266,6 +275,9 @@ pub fn apply(case: &Case) -> (G, Vec<u32>) {
         Ok(_) => 0,
         Err(e) => err_code(&e.kind),
     };
+    // an edge description that occurs more than once in a history is handed over as clones of ONE `Arc<Edge>`: the API takes
+    // `Arc<Edge>` values, so a caller may well insert the same allocation repeatedly (parallel edges of a multigraph)
+    let mut arcs = EdgeArcs::default();
     for op in &case.ops {
         let r = match op {
             Op::AddNode(n) => {
@@ -276,14 +288,14 @@ pub fn apply(case: &Case) -> (G, Vec<u32>) {
                 g.add_nodes(ns.iter().map(|n| n.to_node()).collect());
                 0
             }
-            Op::AddEdge(e) => code(g.add_edge(e.to_edge())),
+            Op::AddEdge(e) => code(g.add_edge(arcs.get(e))),
             Op::AddEdgeTuple(u, v) => code(g.add_edge_tuple(*u, *v)),
-            Op::AddEdges(es) => code(g.add_edges(es.iter().map(|e| e.to_edge()).collect())),
+            Op::AddEdges(es) => code(g.add_edges(es.iter().map(|e| arcs.get(e)).collect())),
             Op::AddEdgeTuples(es) => code(g.add_edge_tuples(es.clone())),
             Op::NewFrom(ns, es) => {
                 match Graph::new_from_nodes_and_edges(
                     ns.iter().map(|n| n.to_node()).collect(),
-                    es.iter().map(|e| e.to_edge()).collect(),
+                    es.iter().map(|e| arcs.get(e)).collect(),
                     case.specs.to_graph_specs(),
                 ) {
                     Ok(ng) => {
@@ -622,8 +634,15 @@ pub fn gen_case(rng: &mut Rng, profile: Profile, max_ops: usize) -> Case {
     let hubs: Vec<u32> = hub_pos.iter().map(|i| names[*i]).collect();
     let mut ops = vec![];
     let mut used_pairs: Vec<(u32, u32)> = vec![];
+    let mut prev_edges: Vec<E> = vec![];
     let all_names: Vec<u32> = { let mut v = names.clone(); if rng.chance(30) { v.push(absent) }; v };
-    let gen_edge = |rng: &mut Rng, used: &mut Vec<(u32, u32)>, tag: &mut u32| -> E {
+    let mut gen_edge = |rng: &mut Rng, used: &mut Vec<(u32, u32)>, tag: &mut u32| -> E {
+        // an exact copy of an earlier edge description (same endpoints, weight and attribute): the same `Arc` again
+        if !prev_edges.is_empty() && rng.chance(12) {
+            let e = rng.pick(&prev_edges).clone();
+            used.push((e.u, e.v));
+            return e;
+        }
         let dup_pct = match profile { Profile::Weights => 55, Profile::Degrees => 40, _ => 35 };
         let loop_pct = match profile { Profile::Degrees => 30, _ => 15 };
         let (u, v) = if big && rng.chance(55) {
@@ -642,7 +661,9 @@ pub fn gen_case(rng: &mut Rng, profile: Profile, max_ops: usize) -> Case {
         };
         used.push((u, v));
         *tag += 1;
-        E { u, v, w: gen_w(rng), attr: if rng.chance(70) { Some(*tag) } else { None } }
+        let e = E { u, v, w: gen_w(rng), attr: if rng.chance(70) { Some(*tag) } else { None } };
+        prev_edges.push(e.clone());
+        e
     };
     let gen_node = |rng: &mut Rng, tag: &mut u32| -> N {
         *tag += 1;
